@@ -140,8 +140,17 @@ class ERIIllConditioned:
         sel = self.LIST if tier == "thorough" else [q for q in self.LIST if q in ((1e5, 3, 0.2), (1e3, 3, 0.2), (1e5, 2, 0.1))]
         out = [dict(tight=t, lket=l, eket=e, order=o) for t, l, e in sel for o in ("ss|XX", "XX|ss")]
         # the core s function paired with a diffuse function of the other shell type: (s X | X X)
-        mixed = [(1e5, 2, 0.2)] if tier == "quick" else [(t, l, e) for t in (1e5, 1e4, 1e3) for (l, e) in ((2, 0.2), (3, 0.3))]
-        out += [dict(tight=t, lket=l, eket=e, order=o) for t, l, e in mixed for o in ("sX|XX", "XX|sX")]
+        # (equal maxima but different totals of angular momentum in the two pairs; the f case loses 8 % of the Schwarz
+        #  scale when the pair of smaller total goes first; quick tier: every 7th of the 600 components)
+        mixed = [(1e5, 3, 0.3)] if tier == "quick" else [(t, l, e) for t in (1e5, 1e4, 1e3) for (l, e) in ((2, 0.1), (3, 0.3))]
+        out += [dict(tight=t, lket=l, eket=e, order=o, **({"stride": 7} if tier == "quick" else {})) for t, l, e in mixed for o in ("sX|XX", "XX|sX")]
+        if tier == "thorough":
+            # either order inside the pair that holds the core function, and quartets whose pairs tie in total angular momentum
+            out += [dict(tight=t, lket=l, eket=e, order=o) for t, l, e in ((1e5, 2, 0.1), (1e5, 3, 0.3)) for o in ("Xs|XX", "XX|Xs")]
+            ties = {"s(1e5)f|fs": [(0, 1e5, 0), (3, 0.4, 2), (3, 0.3, 1), (0, 0.5, 1)], "s(1e5)f|dp": [(0, 1e5, 0), (3, 0.4, 2), (2, 0.3, 1), (1, 0.5, 1)],
+                    "s(1e5)d|ds": [(0, 1e5, 0), (2, 0.26, 2), (2, 0.2, 1), (0, 0.34, 1)], "p(2e3)p(1e3)|pp": [(1, 2e3, 0), (1, 1e3, 0), (1, 0.3, 1), (1, 0.5, 1)]}
+            for lab, q in ties.items():
+                out += [dict(label=lab, quad=q), dict(label="pairs-exchanged:" + lab, quad=q[2:] + q[:2])]
         return out
 
     shapes = fp_shapes
@@ -162,11 +171,19 @@ class ERIIllConditioned:
             return Sh(l, np.array(c, dtype=float), np.array([1.0]), np.array([float(e)]), "cartesian")
 
         A, B = [0.0, 0.0, 0.0], [0.3, -0.2, 0.5]
-        t, l, e = shape["tight"], shape["lket"], shape["eket"]
-        quad = [(0, t, A), (0, t * 0.3, A), (l, e, B), (l, e * 1.7, B)]
-        if shape["order"] in ("sX|XX", "XX|sX"):
+        if "quad" in shape:
+            cen = [A, B, [0.1, 0.2, -0.1]]
+            quad = [(int(l_), float(e_), cen[int(c_)]) for l_, e_, c_ in shape["quad"]]
+            t, l, e = 0.0, 0, 0.0
+        else:
+            t, l, e = shape["tight"], shape["lket"], shape["eket"]
+            quad = [(0, t, A), (0, t * 0.3, A), (l, e, B), (l, e * 1.7, B)]
+        order = shape.get("order", "")
+        if order in ("sX|XX", "XX|sX", "Xs|XX", "XX|Xs"):
             quad[1] = (l, e * 1.3, [0.1, 0.2, -0.1])
-        if shape["order"] in ("XX|ss", "XX|sX"):
+        if order in ("Xs|XX", "XX|Xs"):
+            quad[0], quad[1] = quad[1], quad[0]
+        if order in ("XX|ss", "XX|sX", "XX|Xs"):
             quad = quad[2:] + quad[:2]
         shells = [sh(*q) for q in quad]
         x = E.construct_array_contraction(*shells)
@@ -184,7 +201,9 @@ class ERIIllConditioned:
         worst = (mp.mpf(0), None)
         import itertools
 
-        for idx in itertools.product(*[range(len(c)) for c in comps]):
+        for count, idx in enumerate(itertools.product(*[range(len(c)) for c in comps])):
+            if count % shape.get("stride", 1):
+                continue
             cc = [comps[i][idx[i]] for i in range(4)]
             nn = norms[0][cc[0]] * norms[1][cc[1]] * norms[2][cc[2]] * norms[3][cc[3]]
             ref = f(*cc) * nn
@@ -195,7 +214,6 @@ class ERIIllConditioned:
             if rel > worst[0] or got != got:
                 worst = (rel if got == got else mp.mpf("inf"), idx)
         X = "spdf"[l]
-        first = ("s(%.0e)s" % t) if "ss" in shape["order"] else ("s(%.0e)%s" % (t, X))
-        lab = first, "%s(%.1f)%s" % (X, e, X)
-        name = "eri_illcond/%s/within-1e-6-of-Schwarz" % ("%s|%s" % lab if shape["order"].startswith("s") else "%s|%s" % lab[::-1])
+        lab = order.replace("ss", "s(%.0e)s" % t).replace("sX", "s(%.0e)X" % t).replace("Xs", "Xs(%.0e)" % t).replace("X", X)
+        name = "eri_illcond/%s,diffuse=%.1f/within-1e-6-of-Schwarz" % (lab, e) if "quad" not in shape else "eri_illcond/%s/within-1e-6-of-Schwarz" % shape["label"]
         M.true(name, worst[0] <= mp.mpf("1e-6"), "worst |block - exact| / Schwarz = %s at component index %s" % (mp.nstr(worst[0], 4), worst[1]))
